@@ -30,7 +30,20 @@
 //              voidcast   Dune::Future<void> holding it (get() discards the payload, as mpi_collective_benchmark.cc does)
 //              movedfrom  Dune::Future<R> a(fut); Dune::Future<R> b(std::move(a)); the calls are made on a (null)
 //              null       Dune::Future<R>() (only with op none)
+//              reused     (round three) a future VARIABLE that already served a previous operation of the same kind
+//                         (other values; constructed from it, result taken with get()) is re-used:  f = <operation>;
+//                         i.e. operator=(MPIFuture&&) / the defaulted move assignment of PseudoFuture into a used target.
+//                         Exists for every class that can be move assigned, also the two-buffer MPIFuture<R,S> and the
+//                         reference payloads, which have no default constructor (so `assigned` does not exist for them)
+//              reusedw    the same, but the previous operation was only waited for (the variable is still valid and
+//                         still owns the previous result and send object when it is assigned to)
+//              reusedd    the same, previous operation: get_send_data() then get() (variable owns nothing any more)
+//              erasedreused  Dune::Future<R> variable that served a previous operation (get()), then  ef = Dune::Future<R>(<operation>)
 //       step = one letter per rank: v valid()  y ready()  w wait()  g get()  s while(!ready());  - nothing
+//              d get_send_data() (round three): the send object of a two-buffer operation (mpi igather / iscatter /
+//                iallgather / two-argument iallreduce; wrap raw or reused*), at most once per rank (a second call
+//                dereferences the emptied buffer: undefined, outside the property -> bad-op); it waits first, so on a
+//                future whose result has been taken it throws InvalidFutureException
 //              c the environment completes the operation (the harness waits, through MPI_Request_get_status on the
 //                request handle, until MPI reports completion; the future is not touched)
 //       Until `c` (or wait/get/spin) the interposed MPI_Test answers "not complete" to the first MPI_Test of a ready()
@@ -48,6 +61,11 @@
 //   future  shadow flags `taken` (a get() returned) and `completed`: valid() == !taken; wait()/get() on a taken or
 //           default constructed future throw InvalidFutureException; the first get() returns exactly the data of the
 //           operation (computed from vals), ready() is true once completed and false while MPI_Test says "not yet".
+//           get_send_data() hands back exactly the send object of THIS operation (value; identity for lvalue buffers).
+//   ownership (round three)  the interposed MPI_I* calls record the send and receive buffers of the posted operation;
+//           when the calls of the case start (the future has reached the object they are made on, through whatever
+//           move construction / assignment / wrapper) both must still be live memory (ASan shadow: not freed) -- a
+//           future that let go of a buffer of its operation in flight would make MPI read/write freed memory.
 #include <config.h>
 
 #include <mpi.h>
@@ -70,6 +88,17 @@
 #include <dune/common/parallel/mpihelper.hh>
 
 #include "hcommon_mpi.hh"
+
+#if defined(__SANITIZE_ADDRESS__)
+#define DV_HAVE_ASAN 1
+#elif defined(__has_feature)
+#if __has_feature(address_sanitizer)
+#define DV_HAVE_ASAN 1
+#endif
+#endif
+#ifdef DV_HAVE_ASAN
+#include <sanitizer/asan_interface.h>
+#endif
 
 using namespace dv;
 
@@ -188,6 +217,32 @@ long testCalls = 0, forced = 0;
 void capture(MPI_Request* r) {
   if (futMode && r) { lastReq = *r; haveReq = true; }
 }
+// the buffers of the operation posted last (what MPI reads from / writes to until the request completes)
+struct BufRec {
+  bool have = false;
+  const void* send = nullptr; size_t sendBytes = 0;
+  const void* recv = nullptr; size_t recvBytes = 0;
+};
+BufRec lastBuf;
+size_t bytesOf(long count, MPI_Datatype dt) {
+  int ts = 0;
+  PMPI_Type_size(dt, &ts);
+  return count > 0 && ts > 0 ? (size_t)count * (size_t)ts : 0;
+}
+void captureBuf(const void* sb, size_t sbytes, const void* rb, size_t rbytes) {
+  if (!futMode) return;
+  lastBuf.have = true;
+  lastBuf.send = (sb == MPI_IN_PLACE) ? nullptr : sb;
+  lastBuf.sendBytes = lastBuf.send ? sbytes : 0;
+  lastBuf.recv = rb;
+  lastBuf.recvBytes = rb ? rbytes : 0;
+}
+void resetCapture() {
+  haveReq = false;
+  lastReq = MPI_REQUEST_NULL;
+  lastBuf = BufRec();
+  pendingBudget = 0;
+}
 }  // namespace ip
 
 extern "C" {
@@ -275,40 +330,63 @@ int MPI_Ibarrier(MPI_Comm comm, MPI_Request* request) {
 int MPI_Ibcast(void* buffer, int count, MPI_Datatype datatype, int root, MPI_Comm comm, MPI_Request* request) {
   int rc = PMPI_Ibcast(buffer, count, datatype, root, comm, request);
   ip::capture(request);
+  ip::captureBuf(nullptr, 0, buffer, ip::bytesOf(count, datatype));
   return rc;
 }
 int MPI_Igather(const void* sendbuf, int sendcount, MPI_Datatype sendtype, void* recvbuf, int recvcount,
                 MPI_Datatype recvtype, int root, MPI_Comm comm, MPI_Request* request) {
   int rc = PMPI_Igather(sendbuf, sendcount, sendtype, recvbuf, recvcount, recvtype, root, comm, request);
   ip::capture(request);
+  {
+    int me = -1, sz = 0;
+    PMPI_Comm_rank(comm, &me);
+    PMPI_Comm_size(comm, &sz);
+    ip::captureBuf(sendbuf, ip::bytesOf(sendcount, sendtype), me == root ? recvbuf : nullptr,
+                   me == root ? ip::bytesOf((long)recvcount * sz, recvtype) : 0);
+  }
   return rc;
 }
 int MPI_Iscatter(const void* sendbuf, int sendcount, MPI_Datatype sendtype, void* recvbuf, int recvcount,
                  MPI_Datatype recvtype, int root, MPI_Comm comm, MPI_Request* request) {
   int rc = PMPI_Iscatter(sendbuf, sendcount, sendtype, recvbuf, recvcount, recvtype, root, comm, request);
   ip::capture(request);
+  {
+    int me = -1, sz = 0;
+    PMPI_Comm_rank(comm, &me);
+    PMPI_Comm_size(comm, &sz);
+    ip::captureBuf(me == root ? sendbuf : nullptr, me == root ? ip::bytesOf((long)sendcount * sz, sendtype) : 0, recvbuf,
+                   ip::bytesOf(recvcount, recvtype));
+  }
   return rc;
 }
 int MPI_Iallgather(const void* sendbuf, int sendcount, MPI_Datatype sendtype, void* recvbuf, int recvcount,
                    MPI_Datatype recvtype, MPI_Comm comm, MPI_Request* request) {
   int rc = PMPI_Iallgather(sendbuf, sendcount, sendtype, recvbuf, recvcount, recvtype, comm, request);
   ip::capture(request);
+  {
+    int sz = 0;
+    PMPI_Comm_size(comm, &sz);
+    ip::captureBuf(sendbuf, ip::bytesOf(sendcount, sendtype), recvbuf, ip::bytesOf((long)recvcount * sz, recvtype));
+  }
   return rc;
 }
 int MPI_Iallreduce(const void* sendbuf, void* recvbuf, int count, MPI_Datatype datatype, MPI_Op op, MPI_Comm comm,
                    MPI_Request* request) {
   int rc = PMPI_Iallreduce(sendbuf, recvbuf, count, datatype, op, comm, request);
   ip::capture(request);
+  ip::captureBuf(sendbuf, ip::bytesOf(count, datatype), recvbuf, ip::bytesOf(count, datatype));
   return rc;
 }
 int MPI_Isend(const void* buf, int count, MPI_Datatype datatype, int dest, int tag, MPI_Comm comm, MPI_Request* request) {
   int rc = PMPI_Isend(buf, count, datatype, dest, tag, comm, request);
   ip::capture(request);
+  ip::captureBuf(buf, ip::bytesOf(count, datatype), nullptr, 0);
   return rc;
 }
 int MPI_Irecv(void* buf, int count, MPI_Datatype datatype, int source, int tag, MPI_Comm comm, MPI_Request* request) {
   int rc = PMPI_Irecv(buf, count, datatype, source, tag, comm, request);
   ip::capture(request);
+  ip::captureBuf(nullptr, 0, buf, ip::bytesOf(count, datatype));
   return rc;
 }
 }  // extern "C"
@@ -503,8 +581,13 @@ struct FutCase {
   std::string comm, op, type, wrap, red;
   int root = 0;
   std::vector<std::vector<int>> vals;
+  std::vector<std::vector<int>> prevVals;  // contributions to the previous operation a re-used variable served
   std::vector<std::string> steps;
 };
+// the values of the previous operation on a re-used future variable: different from this operation's in every entry, and
+// such that every reduction of them differs from the reduction of the current ones (sum/min/max shift by a constant)
+static const int PREV_SHIFT = 1000003;
+static int prevOf(const std::string& type, int v) { return type == "bool" ? 1 - v : v + PREV_SHIFT; }
 
 struct Expect {
   bool startsInvalid = false;
@@ -512,6 +595,8 @@ struct Expect {
   bool pseudo = false;
   std::vector<int> data;     // the data of the completed operation
   const void* refTarget = nullptr;  // for lvalue payloads: the object the reference must denote
+  std::vector<int> sendData;        // two-buffer operations: the send object this rank passed in
+  const void* sendTarget = nullptr; // ... and, for an lvalue send buffer, the object get_send_data() must denote
 };
 
 static int redOp(const std::string& r, int a, int b) {
@@ -534,7 +619,12 @@ struct IFut {
   virtual void wait() = 0;
   // false: get() returns void.  true: payload (and, for an lvalue result, the address of the object referred to)
   virtual bool get(std::vector<int>& payload, const void*& addr) = 0;
+  // get_send_data(): only MPIFuture<R,S> with a second buffer has a send object
+  virtual void getSend(std::vector<int>& payload, const void*& addr) = 0;
 };
+template <class F> struct HasSend : std::false_type {};
+template <class R, class S> struct HasSend<Dune::MPIFuture<R, S>> : std::bool_constant<!std::is_void_v<S>> {};
+struct NoSendObject {};
 template <class F>
 struct Adapter : IFut {
   F& f;
@@ -554,7 +644,31 @@ struct Adapter : IFut {
       return true;
     }
   }
+  void getSend(std::vector<int>& payload, const void*& addr) override {
+    if constexpr (HasSend<F>::value) {
+      using S = decltype(f.get_send_data());
+      S got = f.get_send_data();
+      payload = toVec(got);
+      if constexpr (std::is_lvalue_reference_v<S>) addr = (const void*)&got;
+    } else
+      throw NoSendObject();
+  }
 };
+
+// ownership oracle: are the buffers of the operation posted last still live memory?  ("" = yes)
+static std::string buffersOfOperationLive() {
+#ifdef DV_HAVE_ASAN
+  const ip::BufRec& b = ip::lastBuf;
+  if (!b.have) return "";
+  if (b.send && b.sendBytes && __asan_region_is_poisoned(const_cast<void*>(b.send), b.sendBytes))
+    return "the send object of the operation (" + std::to_string(b.sendBytes) +
+           " bytes handed to MPI when it was posted) has been destroyed while the operation may still be in flight: the future does not own it";
+  if (b.recv && b.recvBytes && __asan_region_is_poisoned(const_cast<void*>(b.recv), b.recvBytes))
+    return "the receive object of the operation (" + std::to_string(b.recvBytes) +
+           " bytes handed to MPI when it was posted) has been destroyed while the operation may still be in flight: the future does not own it";
+#endif
+  return "";
+}
 
 // run this rank's letters on the future
 static Result runSteps(IFut& f, const FutCase& c, const Expect& ex) {
@@ -563,6 +677,11 @@ static Result runSteps(IFut& f, const FutCase& c, const Expect& ex) {
   std::string fail;
   bool taken = ex.startsInvalid, completed = ex.pseudo || ex.startsInvalid, envComplete = false, interesting = false;
   auto note = [&](const std::string& m) { if (fail.empty()) fail = m; };
+  {
+    std::string own = buffersOfOperationLive();
+    if (!own.empty()) { note("before the first call: " + own); stat("fut_ownership_lost"); }
+    else if (ip::lastBuf.have) stat("fut_ownership_checked");
+  }
   for (size_t k = 0; k < c.steps.size(); ++k) {
     const char op = c.steps[k][g_rank];
     std::string o;
@@ -652,14 +771,33 @@ static Result runSteps(IFut& f, const FutCase& c, const Expect& ex) {
           completed = true;
           break;
         }
+        case 'd': {
+          interesting = true;
+          if (!taken) stat(completed || envComplete ? "fut_senddata_complete" : "fut_senddata_may_block");
+          std::vector<int> g;
+          const void* addr = nullptr;
+          f.getSend(g, addr);
+          o = listStr(g);
+          if (taken) note(where + "get_send_data() on an invalid future returned " + listStr(g) + " instead of throwing InvalidFutureException");
+          else {
+            if (g != ex.sendData)
+              note(where + "get_send_data() returned " + listStr(g) + " but the send object of this operation is " + listStr(ex.sendData));
+            if (addr && ex.sendTarget && addr != ex.sendTarget) note(where + "get_send_data() returned a reference to a different object than the one passed in");
+          }
+          completed = true;  // it waits first
+          break;
+        }
         default: o = "?";
       }
     } catch (Dune::InvalidFutureException&) {
       o = ((op == 'y' || op == 's') && taken) ? "*" : "ERR:InvalidFuture";
       if ((op == 'y' || op == 's') && taken) stat("fut_ready_throws_invalid");
-      if ((op == 'w' || op == 'g') && !taken) note(where + "InvalidFutureException although the future is valid (result not taken)");
+      if ((op == 'w' || op == 'g' || op == 'd') && !taken) note(where + "InvalidFutureException although the future is valid (result not taken)");
       if ((op == 'y' || op == 's') && !taken) note(where + "ready() threw InvalidFutureException although the future is valid");
       if (op == 'v') note(where + "valid() threw");
+    } catch (NoSendObject&) {
+      o = "ERR:NoSendObject";
+      note(where + "the case asks for get_send_data() on a future without a send object");
     } catch (Dune::Exception& e) {
       o = "ERR:Other";
       note(where + "unexpected Dune exception");
@@ -688,23 +826,45 @@ template <class T> struct CanAssign<Dune::PseudoFuture<T>> : std::bool_constant<
 
 static Result badOp();
 
-// hand the future to runSteps: directly, move assigned, or through the type-erased Dune::Future
+// the previous life of a re-used future variable: how the previous operation was consumed before the variable is
+// assigned to.  g: get();  w: wait() only (still valid);  d: get_send_data() then get()
 template <class F>
-static Result drive(F&& fut, const FutCase& c, Expect ex) {
-  using FT = std::decay_t<F>;
+static void servePrevious(F& f, char mode) {
+  ip::pendingBudget = 0;
+  if (mode == 'w') { f.wait(); return; }
+  if constexpr (HasSend<F>::value) {
+    if (mode == 'd') (void)f.get_send_data();
+  }
+  f.get();
+}
+
+// hand the future to runSteps: directly, move assigned (into a fresh or into a used variable), or through the
+// type-erased Dune::Future.  mk(1) posts the operation of the case, mk(0) the previous operation a re-used variable
+// served (same kind, values prevVals); both return the future by value.
+// (one instantiation per future class: the factory is type-erased)
+template <class FT>
+static Result driveT(const std::function<FT(int)>& mk, const FutCase& c, Expect ex) {
   using R = decltype(std::declval<FT&>().get());
+  auto post = [&]() { ip::resetCapture(); return mk(1); };
   if (c.wrap == "erased") {
-    Dune::Future<R> ef(std::move(fut));
+    Dune::Future<R> ef(post());
+    Adapter<Dune::Future<R>> a(ef);
+    return runSteps(a, c, ex);
+  }
+  if (c.wrap == "erasedreused") {
+    Dune::Future<R> ef(mk(0));
+    servePrevious(ef, 'g');
+    ef = Dune::Future<R>(post());
     Adapter<Dune::Future<R>> a(ef);
     return runSteps(a, c, ex);
   }
   if (c.wrap == "voidcast") {
-    Dune::Future<void> ef(std::move(fut));
+    Dune::Future<void> ef(post());
     Adapter<Dune::Future<void>> a(ef);
     return runSteps(a, c, ex);
   }
   if (c.wrap == "movedfrom") {
-    Dune::Future<R> from(std::move(fut));
+    Dune::Future<R> from(post());
     Dune::Future<R> to(std::move(from));
     Adapter<Dune::Future<R>> a(from);
     ex.startsInvalid = true;
@@ -723,66 +883,100 @@ static Result drive(F&& fut, const FutCase& c, Expect ex) {
   if (c.wrap == "assigned") {
     if constexpr (CanAssign<FT>::value) {
       FT local;
-      local = std::move(fut);
+      local = post();
       Adapter<FT> a(local);
       return runSteps(a, c, ex);
     } else
       return badOp();
   }
-  FT local(std::move(fut));
+  if (c.wrap == "reused" || c.wrap == "reusedw" || c.wrap == "reusedd") {
+    if constexpr (std::is_move_assignable_v<FT>) {
+      FT local(mk(0));
+      servePrevious(local, c.wrap == "reused" ? 'g' : c.wrap == "reusedw" ? 'w' : 'd');
+      local = post();
+      Adapter<FT> a(local);
+      return runSteps(a, c, ex);
+    } else
+      return badOp();
+  }
+  FT local(post());
   Adapter<FT> a(local);
   return runSteps(a, c, ex);
 }
 
+template <class Mk>
+static Result drive(Mk&& mk, const FutCase& c, const Expect& ex) {
+  using FT = std::decay_t<decltype(mk(1))>;
+  return driveT<FT>(std::function<FT(int)>(std::forward<Mk>(mk)), c, ex);
+}
+
+// lvalue payloads of the operations (type ref): one set of objects per generation (0 = previous operation of a
+// re-used variable, 1 = the operation of the case)
+static int g_slot[2], g_outSlot[2];
+static std::vector<int> g_inVec[2], g_outVec[2];
+static std::string refHolds(const Result& r, bool wrong, const std::string& holds, const std::string& want) {
+  if (r.oracle.rfind("ok", 0) == 0 && wrong) return "FAIL after completion the referenced object holds " + holds + " instead of " + want;
+  return r.oracle;
+}
+
 template <class Op>
 static Result futAllreduce(const FutCase& c, Expect ex, Dune::Communication<MPI_Comm>& cc) {
-  const std::vector<int>& mine = c.vals[g_rank];
+  auto V = [&](int gen) -> const std::vector<int>& { return (gen ? c.vals : c.prevVals)[g_rank]; };
   ex.data = reduceAll(c.red, c.vals);
-  static int slot, outSlot;  // lvalue payloads
   if (c.op == "iallreduce") {
-    if (c.type == "int") return drive(cc.template iallreduce<Op>(int(mine[0]), int(SENT)), c, ex);
-    if (c.type == "vec") return drive(cc.template iallreduce<Op>(std::vector<int>(mine), std::vector<int>(mine.size(), SENT)), c, ex);
-    slot = mine[0];
-    outSlot = SENT;
-    ex.refTarget = &outSlot;
-    Result r = drive(cc.template iallreduce<Op>(slot, outSlot), c, ex);  // MPIFuture<int&, int&>
-    if (r.oracle.rfind("ok", 0) == 0 && outSlot != ex.data[0]) r.oracle = "FAIL after completion the referenced object holds " + std::to_string(outSlot) + " instead of " + std::to_string(ex.data[0]);
+    ex.sendData = V(1);
+    if (c.type == "int") return drive([&](int gen) { return cc.template iallreduce<Op>(int(V(gen)[0]), int(SENT)); }, c, ex);
+    if (c.type == "vec")
+      return drive([&](int gen) { return cc.template iallreduce<Op>(std::vector<int>(V(gen)), std::vector<int>(V(gen).size(), SENT)); }, c, ex);
+    ex.refTarget = &g_outSlot[1];
+    ex.sendTarget = &g_slot[1];
+    Result r = drive([&](int gen) {
+      g_slot[gen] = V(gen)[0];
+      g_outSlot[gen] = SENT;
+      return cc.template iallreduce<Op>(g_slot[gen], g_outSlot[gen]);  // MPIFuture<int&, int&>
+    }, c, ex);
+    r.oracle = refHolds(r, g_outSlot[1] != ex.data[0], std::to_string(g_outSlot[1]), std::to_string(ex.data[0]));
     return r;
   }
-  if (c.type == "int") return drive(cc.template iallreduce<Op>(int(mine[0])), c, ex);
-  if (c.type == "vec") return drive(cc.template iallreduce<Op>(std::vector<int>(mine)), c, ex);
-  slot = mine[0];
-  ex.refTarget = &slot;
-  Result r = drive(cc.template iallreduce<Op>(slot), c, ex);
-  if (r.oracle.rfind("ok", 0) == 0 && slot != ex.data[0]) r.oracle = "FAIL after completion the referenced object holds " + std::to_string(slot) + " instead of " + std::to_string(ex.data[0]);
+  if (c.type == "int") return drive([&](int gen) { return cc.template iallreduce<Op>(int(V(gen)[0])); }, c, ex);
+  if (c.type == "vec") return drive([&](int gen) { return cc.template iallreduce<Op>(std::vector<int>(V(gen))); }, c, ex);
+  ex.refTarget = &g_slot[1];
+  Result r = drive([&](int gen) {
+    g_slot[gen] = V(gen)[0];
+    return cc.template iallreduce<Op>(g_slot[gen]);
+  }, c, ex);
+  r.oracle = refHolds(r, g_slot[1] != ex.data[0], std::to_string(g_slot[1]), std::to_string(ex.data[0]));
   return r;
 }
 template <class Op>
 static Result futAllreduceBool(const FutCase& c, Expect ex, Dune::Communication<MPI_Comm>& cc) {
-  const bool mine = c.vals[g_rank][0] != 0;
+  auto mine = [&](int gen) { return (gen ? c.vals : c.prevVals)[g_rank][0] != 0; };
   ex.data = reduceAll(c.red, c.vals);
-  if (c.op == "iallreduce") return drive(cc.template iallreduce<Op>(bool(mine), bool(!mine)), c, ex);
-  return drive(cc.template iallreduce<Op>(bool(mine)), c, ex);
+  if (c.op == "iallreduce") {
+    ex.sendData = c.vals[g_rank];
+    return drive([&](int gen) { return cc.template iallreduce<Op>(bool(mine(gen)), bool(!mine(gen))); }, c, ex);
+  }
+  return drive([&](int gen) { return cc.template iallreduce<Op>(bool(mine(gen))); }, c, ex);
 }
 template <class Op>
 static Result futAllreduceSeq(const FutCase& c, Expect ex, Dune::Communication<Dune::No_Comm>& sc) {
-  const std::vector<int>& mine = c.vals[g_rank];
-  ex.data = mine;
+  auto V = [&](int gen) -> const std::vector<int>& { return (gen ? c.vals : c.prevVals)[g_rank]; };
+  ex.data = V(1);
   if (c.type == "bool") {
-    const bool b = mine[0] != 0;
-    if (c.op == "iallreduce") return drive(sc.template iallreduce<Op>(bool(b), bool(!b)), c, ex);
-    return drive(sc.template iallreduce<Op>(bool(b)), c, ex);
+    if (c.op == "iallreduce") return drive([&](int gen) { return sc.template iallreduce<Op>(bool(V(gen)[0] != 0), bool(V(gen)[0] == 0)); }, c, ex);
+    return drive([&](int gen) { return sc.template iallreduce<Op>(bool(V(gen)[0] != 0)); }, c, ex);
   }
   if (c.op == "iallreduce") {
-    if (c.type == "int") return drive(sc.template iallreduce<Op>(int(mine[0]), int(SENT)), c, ex);
-    return drive(sc.template iallreduce<Op>(std::vector<int>(mine), std::vector<int>(mine.size(), SENT)), c, ex);
+    if (c.type == "int") return drive([&](int gen) { return sc.template iallreduce<Op>(int(V(gen)[0]), int(SENT)); }, c, ex);
+    return drive([&](int gen) { return sc.template iallreduce<Op>(std::vector<int>(V(gen)), std::vector<int>(V(gen).size(), SENT)); }, c, ex);
   }
-  if (c.type == "int") return drive(sc.template iallreduce<Op>(int(mine[0])), c, ex);
-  if (c.type == "vec") return drive(sc.template iallreduce<Op>(std::vector<int>(mine)), c, ex);
-  static int slot;  // PseudoFuture<int&>
-  slot = mine[0];
-  ex.refTarget = &slot;
-  return drive(sc.template iallreduce<Op>(slot), c, ex);
+  if (c.type == "int") return drive([&](int gen) { return sc.template iallreduce<Op>(int(V(gen)[0])); }, c, ex);
+  if (c.type == "vec") return drive([&](int gen) { return sc.template iallreduce<Op>(std::vector<int>(V(gen))); }, c, ex);
+  ex.refTarget = &g_slot[1];  // PseudoFuture<int&>
+  return drive([&](int gen) {
+    g_slot[gen] = V(gen)[0];
+    return sc.template iallreduce<Op>(g_slot[gen]);
+  }, c, ex);
 }
 
 static bool allowedType(const std::string& comm, const std::string& op, const std::string& ty) {
@@ -797,12 +991,24 @@ static bool allowedType(const std::string& comm, const std::string& op, const st
   if (op == "p2p") return mpi && in({"int", "vec", "bool"});
   return false;
 }
+// two-buffer operations of Communication<MPI_Comm>: the future is an MPIFuture<R,S> that owns a send object
+static bool hasSendObject(const std::string& comm, const std::string& op) {
+  return comm == "mpi" && (op == "igather" || op == "iscatter" || op == "iallgather" || op == "iallreduce");
+}
 static bool allowedWrap(const std::string& comm, const std::string& op, const std::string& ty, const std::string& wrap) {
   if (wrap == "raw" || wrap == "erased" || wrap == "voidcast" || wrap == "movedfrom") return true;
   if (wrap == "null") return op == "none";
   if (wrap == "assigned")
     return ty != "ref" && (comm == "seq" || op == "none" || op == "ibarrier" || op == "ibroadcast" || op == "iallreduce1" || op == "p2p");
+  // a used variable of the same class is assigned to: every class but PseudoFuture<T&> (reference member) can be
+  if (wrap == "reused" || wrap == "reusedw") return op != "none" && !(comm == "seq" && ty == "ref");
+  if (wrap == "reusedd") return hasSendObject(comm, op);
+  if (wrap == "erasedreused") return op != "none";
   return false;
+}
+// get_send_data() can be called where the calls are made on the MPIFuture<R,S> itself
+static bool allowsSendData(const std::string& comm, const std::string& op, const std::string& wrap) {
+  return hasSendObject(comm, op) && (wrap == "raw" || wrap == "reused" || wrap == "reusedw" || wrap == "reusedd");
 }
 
 static Result execFut(const std::vector<std::string>& hdr, const std::string& body) {
@@ -834,50 +1040,58 @@ static Result execFut(const std::vector<std::string>& hdr, const std::string& bo
   for (auto& s : split(body, ';')) c.steps.push_back(stripSpaces(s));
   for (auto& s : c.steps) {
     if ((int)s.size() != P) return badOp();
-    for (char ch : s) if (std::string("vywgcs-").find(ch) == std::string::npos) return badOp();
+    for (char ch : s) if (std::string("vywgcs-d").find(ch) == std::string::npos) return badOp();
+  }
+  for (int r = 0; r < P; ++r) {  // get_send_data(): only where there is a send object, at most once per rank
+    int ds = 0;
+    for (auto& s : c.steps) ds += s[r] == 'd';
+    if (ds > 1 || (ds == 1 && !allowsSendData(c.comm, c.op, c.wrap))) return badOp();
+  }
+  for (auto& v : c.vals) {
+    std::vector<int> pv;
+    for (int x : v) pv.push_back(prevOf(c.type, x));
+    c.prevVals.push_back(pv);
   }
   stat("fut_" + c.comm + "_" + c.op + "_" + c.type);
   stat("fut_wrap_" + c.wrap);
   stat("fut_steps", (long)c.steps.size());
 
-  const std::vector<int>& mine = c.vals[g_rank];
   Expect ex;
   ip::futMode = true;
-  ip::haveReq = false;
-  ip::lastReq = MPI_REQUEST_NULL;
-  ip::pendingBudget = 0;
+  ip::resetCapture();
   Result r;
-  auto firsts = [&] { std::vector<int> f; for (auto& v : c.vals) f.push_back(v[0]); return f; };
-  static int slot, outSlot;                 // lvalue payloads (type ref)
-  static std::vector<int> inVec, outVec;
+  // gen 1 = the operation of the case, gen 0 = the previous operation of a re-used variable
+  auto V = [&](int gen) -> const std::vector<std::vector<int>>& { return gen ? c.vals : c.prevVals; };
+  auto mine = [&](int gen) -> const std::vector<int>& { return V(gen)[g_rank]; };
+  auto firsts = [&](int gen) { std::vector<int> f; for (auto& v : V(gen)) f.push_back(v[0]); return f; };
+  const int rk = g_rank, root = c.root;
 
   if (c.comm == "seq") {
     ex.pseudo = true;
     Dune::Communication<Dune::No_Comm> sc;
     if (c.op == "none") {
       ex.startsInvalid = true;
-      if (c.type == "void") r = drive(Dune::PseudoFuture<void>(), c, ex);
-      else r = drive(Dune::PseudoFuture<int>(), c, ex);
-    } else if (c.op == "ibarrier") r = drive(sc.ibarrier(), c, ex);
+      if (c.type == "void") r = drive([&](int) { return Dune::PseudoFuture<void>(); }, c, ex);
+      else r = drive([&](int) { return Dune::PseudoFuture<int>(); }, c, ex);
+    } else if (c.op == "ibarrier") r = drive([&](int) { return sc.ibarrier(); }, c, ex);
     else if (c.op == "ibroadcast") {
-      ex.data = mine;
-      if (c.type == "int") r = drive(sc.ibroadcast(int(mine[0]), 0), c, ex);
-      else if (c.type == "bool") r = drive(sc.ibroadcast(bool(mine[0] != 0), 0), c, ex);
-      else if (c.type == "vec") r = drive(sc.ibroadcast(std::vector<int>(mine), 0), c, ex);
+      ex.data = mine(1);
+      if (c.type == "int") r = drive([&](int gen) { return sc.ibroadcast(int(mine(gen)[0]), 0); }, c, ex);
+      else if (c.type == "bool") r = drive([&](int gen) { return sc.ibroadcast(bool(mine(gen)[0] != 0), 0); }, c, ex);
+      else if (c.type == "vec") r = drive([&](int gen) { return sc.ibroadcast(std::vector<int>(mine(gen)), 0); }, c, ex);
       else {
-        slot = mine[0];
-        ex.refTarget = &slot;
-        r = drive(sc.ibroadcast(slot, 0), c, ex);  // PseudoFuture<int&>
+        ex.refTarget = &g_slot[1];
+        r = drive([&](int gen) { g_slot[gen] = mine(gen)[0]; return sc.ibroadcast(g_slot[gen], 0); }, c, ex);  // PseudoFuture<int&>
       }
     } else if (c.op == "igather") {
-      ex.data = {mine[0]};
-      r = drive(sc.igather(int(mine[0]), std::vector<int>(1, SENT), 0), c, ex);
+      ex.data = {mine(1)[0]};
+      r = drive([&](int gen) { return sc.igather(int(mine(gen)[0]), std::vector<int>(1, SENT), 0); }, c, ex);
     } else if (c.op == "iscatter") {
-      ex.data = {mine[0]};
-      r = drive(sc.iscatter(std::vector<int>(1, mine[0]), int(SENT), 0), c, ex);
+      ex.data = {mine(1)[0]};
+      r = drive([&](int gen) { return sc.iscatter(std::vector<int>(1, mine(gen)[0]), int(SENT), 0); }, c, ex);
     } else if (c.op == "iallgather") {
       ex.dontcare = true;  // the sequential iallgather's payload belongs to C07 (DESIGN.md section 6 #17)
-      r = drive(sc.iallgather(int(mine[0]), std::vector<int>(1, SENT)), c, ex);
+      r = drive([&](int gen) { return sc.iallgather(int(mine(gen)[0]), std::vector<int>(1, SENT)); }, c, ex);
     } else if (c.type == "bool") {
       if (c.red == "min") r = futAllreduceSeq<Dune::Min<bool>>(c, ex, sc);
       else r = futAllreduceSeq<Dune::Max<bool>>(c, ex, sc);
@@ -888,49 +1102,62 @@ static Result execFut(const std::vector<std::string>& hdr, const std::string& bo
     Dune::Communication<MPI_Comm> cc(g_futComm);
     if (c.op == "none") {
       ex.startsInvalid = true;
-      if (c.type == "void") r = drive(Dune::MPIFuture<void>(), c, ex);
-      else r = drive(Dune::MPIFuture<int>(), c, ex);
-    } else if (c.op == "ibarrier") r = drive(cc.ibarrier(), c, ex);
+      if (c.type == "void") r = drive([&](int) { return Dune::MPIFuture<void>(); }, c, ex);
+      else r = drive([&](int) { return Dune::MPIFuture<int>(); }, c, ex);
+    } else if (c.op == "ibarrier") r = drive([&](int) { return cc.ibarrier(); }, c, ex);
     else if (c.op == "ibroadcast") {
-      ex.data = c.vals[c.root];
-      if (c.type == "int") r = drive(cc.ibroadcast(int(mine[0]), c.root), c, ex);
-      else if (c.type == "bool") r = drive(cc.ibroadcast(bool(mine[0] != 0), c.root), c, ex);
-      else if (c.type == "vec") r = drive(cc.ibroadcast(std::vector<int>(mine), c.root), c, ex);
+      ex.data = c.vals[root];
+      if (c.type == "int") r = drive([&](int gen) { return cc.ibroadcast(int(mine(gen)[0]), root); }, c, ex);
+      else if (c.type == "bool") r = drive([&](int gen) { return cc.ibroadcast(bool(mine(gen)[0] != 0), root); }, c, ex);
+      else if (c.type == "vec") r = drive([&](int gen) { return cc.ibroadcast(std::vector<int>(mine(gen)), root); }, c, ex);
       else {
-        slot = mine[0];
-        ex.refTarget = &slot;
-        r = drive(cc.ibroadcast(slot, c.root), c, ex);
-        if (r.oracle.rfind("ok", 0) == 0 && slot != ex.data[0]) r.oracle = "FAIL after completion the referenced object holds " + std::to_string(slot) + " instead of " + std::to_string(ex.data[0]);
+        ex.refTarget = &g_slot[1];
+        r = drive([&](int gen) { g_slot[gen] = mine(gen)[0]; return cc.ibroadcast(g_slot[gen], root); }, c, ex);
+        r.oracle = refHolds(r, g_slot[1] != ex.data[0], std::to_string(g_slot[1]), std::to_string(ex.data[0]));
       }
     } else if (c.op == "igather") {
-      if (g_rank == c.root) ex.data = firsts(); else ex.dontcare = true;
-      if (c.type == "int") r = drive(cc.igather(int(mine[0]), std::vector<int>(g_rank == c.root ? P : 0, SENT), c.root), c, ex);
+      if (rk == root) ex.data = firsts(1); else ex.dontcare = true;
+      ex.sendData = {mine(1)[0]};
+      if (c.type == "int")
+        r = drive([&](int gen) { return cc.igather(int(mine(gen)[0]), std::vector<int>(rk == root ? P : 0, SENT), root); }, c, ex);
       else {
-        slot = mine[0];
-        outVec.assign(g_rank == c.root ? P : 0, SENT);
-        ex.refTarget = &outVec;
-        r = drive(cc.igather(slot, outVec, c.root), c, ex);  // MPIFuture<std::vector<int>&, int&>
-        if (r.oracle.rfind("ok", 0) == 0 && g_rank == c.root && outVec != ex.data) r.oracle = "FAIL after completion the referenced vector holds " + listStr(outVec) + " instead of " + listStr(ex.data);
+        ex.refTarget = &g_outVec[1];
+        ex.sendTarget = &g_slot[1];
+        r = drive([&](int gen) {
+          g_slot[gen] = mine(gen)[0];
+          g_outVec[gen].assign(rk == root ? P : 0, SENT);
+          return cc.igather(g_slot[gen], g_outVec[gen], root);  // MPIFuture<std::vector<int>&, int&>
+        }, c, ex);
+        r.oracle = refHolds(r, rk == root && g_outVec[1] != ex.data, listStr(g_outVec[1]), listStr(ex.data));
       }
     } else if (c.op == "iscatter") {
-      ex.data = {mine[0]};
-      if (c.type == "int") r = drive(cc.iscatter(g_rank == c.root ? firsts() : std::vector<int>(), int(SENT), c.root), c, ex);
+      ex.data = {mine(1)[0]};
+      ex.sendData = rk == root ? firsts(1) : std::vector<int>();
+      if (c.type == "int")
+        r = drive([&](int gen) { return cc.iscatter(rk == root ? firsts(gen) : std::vector<int>(), int(SENT), root); }, c, ex);
       else {
-        inVec = g_rank == c.root ? firsts() : std::vector<int>();
-        outSlot = SENT;
-        ex.refTarget = &outSlot;
-        r = drive(cc.iscatter(inVec, outSlot, c.root), c, ex);  // MPIFuture<int&, std::vector<int>&>
-        if (r.oracle.rfind("ok", 0) == 0 && outSlot != ex.data[0]) r.oracle = "FAIL after completion the referenced object holds " + std::to_string(outSlot) + " instead of " + std::to_string(ex.data[0]);
+        ex.refTarget = &g_outSlot[1];
+        ex.sendTarget = &g_inVec[1];
+        r = drive([&](int gen) {
+          g_inVec[gen] = rk == root ? firsts(gen) : std::vector<int>();
+          g_outSlot[gen] = SENT;
+          return cc.iscatter(g_inVec[gen], g_outSlot[gen], root);  // MPIFuture<int&, std::vector<int>&>
+        }, c, ex);
+        r.oracle = refHolds(r, g_outSlot[1] != ex.data[0], std::to_string(g_outSlot[1]), std::to_string(ex.data[0]));
       }
     } else if (c.op == "iallgather") {
-      ex.data = firsts();
-      if (c.type == "int") r = drive(cc.iallgather(int(mine[0]), std::vector<int>(P, SENT)), c, ex);
+      ex.data = firsts(1);
+      ex.sendData = {mine(1)[0]};
+      if (c.type == "int") r = drive([&](int gen) { return cc.iallgather(int(mine(gen)[0]), std::vector<int>(P, SENT)); }, c, ex);
       else {
-        slot = mine[0];
-        outVec.assign(P, SENT);
-        ex.refTarget = &outVec;
-        r = drive(cc.iallgather(slot, outVec), c, ex);
-        if (r.oracle.rfind("ok", 0) == 0 && outVec != ex.data) r.oracle = "FAIL after completion the referenced vector holds " + listStr(outVec) + " instead of " + listStr(ex.data);
+        ex.refTarget = &g_outVec[1];
+        ex.sendTarget = &g_slot[1];
+        r = drive([&](int gen) {
+          g_slot[gen] = mine(gen)[0];
+          g_outVec[gen].assign(P, SENT);
+          return cc.iallgather(g_slot[gen], g_outVec[gen]);
+        }, c, ex);
+        r.oracle = refHolds(r, g_outVec[1] != ex.data, listStr(g_outVec[1]), listStr(ex.data));
       }
     } else if (c.op == "iallreduce" || c.op == "iallreduce1") {
       if (c.type == "bool") {
@@ -940,17 +1167,18 @@ static Result execFut(const std::vector<std::string>& hdr, const std::string& bo
       else if (c.red == "min") r = futAllreduce<Dune::Min<int>>(c, ex, cc);
       else r = futAllreduce<Dune::Max<int>>(c, ex, cc);
     } else {  // p2p: root sends to root+1
-      const int dst = (c.root + 1) % P;
-      ex.data = c.vals[c.root];
-      if (P < 2 || (g_rank != c.root && g_rank != dst)) { r.impl = "idle"; r.oracle = "ok trivial"; }
-      else if (g_rank == c.root) {
-        if (c.type == "int") r = drive(cc.isend(int(ex.data[0]), dst, 19), c, ex);
-        else if (c.type == "bool") r = drive(cc.isend(bool(ex.data[0] != 0), dst, 19), c, ex);
-        else r = drive(cc.isend(std::vector<int>(ex.data), dst, 19), c, ex);
+      const int dst = (root + 1) % P;
+      ex.data = c.vals[root];
+      auto src = [&](int gen) -> const std::vector<int>& { return V(gen)[root]; };
+      if (P < 2 || (rk != root && rk != dst)) { r.impl = "idle"; r.oracle = "ok trivial"; }
+      else if (rk == root) {
+        if (c.type == "int") r = drive([&](int gen) { return cc.isend(int(src(gen)[0]), dst, 19); }, c, ex);
+        else if (c.type == "bool") r = drive([&](int gen) { return cc.isend(bool(src(gen)[0] != 0), dst, 19); }, c, ex);
+        else r = drive([&](int gen) { return cc.isend(std::vector<int>(src(gen)), dst, 19); }, c, ex);
       } else {
-        if (c.type == "int") r = drive(cc.irecv(int(SENT), c.root, 19), c, ex);
-        else if (c.type == "bool") r = drive(cc.irecv(bool(ex.data[0] == 0), c.root, 19), c, ex);  // buffer starts with the wrong value
-        else r = drive(cc.irecv(std::vector<int>(ex.data.size(), SENT), c.root, 19), c, ex);
+        if (c.type == "int") r = drive([&](int) { return cc.irecv(int(SENT), root, 19); }, c, ex);
+        else if (c.type == "bool") r = drive([&](int gen) { return cc.irecv(bool(src(gen)[0] == 0), root, 19); }, c, ex);  // buffer starts with the wrong value
+        else r = drive([&](int gen) { return cc.irecv(std::vector<int>(src(gen).size(), SENT), root, 19); }, c, ex);
       }
     }
   }
@@ -992,7 +1220,8 @@ static const std::vector<FutKind>& futKinds() {
       {"seq", "iallreduce1", "ref"}};
   return k;
 }
-static const std::vector<std::string> kWraps = {"raw", "erased", "assigned", "voidcast", "movedfrom", "null"};
+static const std::vector<std::string> kWraps = {"raw", "erased", "assigned", "voidcast", "movedfrom", "null",
+                                                 "reused", "reusedw", "reusedd", "erasedreused"};
 // the wrappers that exist for a kind, in a fixed order
 static std::vector<std::string> wrapsOf(const FutKind& k) {
   std::vector<std::string> w;
@@ -1086,19 +1315,49 @@ static long guardEnumSize(int P) { return P <= 3 ? (long)kCtors.size() * ipow(3,
 // way of arming, act, and what a second rank does in the same section
 static long pathEnumPerCtor(int P) { return 4L * 3 * 6 * (P >= 2 ? 6 : 1); }
 static long pathEnumSize(int P) { return pathEnumPerCtor(P) * (P <= 2 ? (long)kCtors.size() : 1); }
-static long futEnumSize() { return (long)futKinds().size() * (long)allSeqs("vywg", g_seqLen).size(); }
+// call sequences of one operation kind: over valid/ready/wait/get, and for the two-buffer operations also
+// get_send_data() (at most once, see the header)
+static std::vector<std::string> seqsOf(const FutKind& k, int maxLen) {
+  if (!hasSendObject(k.comm, k.op)) return allSeqs("vywg", maxLen);
+  std::vector<std::string> out;
+  for (auto& s : allSeqs("vywgd", maxLen)) if (std::count(s.begin(), s.end(), 'd') <= 1) out.push_back(s);
+  return out;
+}
+// the wrappers of a kind on which a given call sequence can be made
+static std::vector<std::string> wrapsFor(const FutKind& k, const std::string& seq) {
+  std::vector<std::string> w;
+  const bool d = seq.find('d') != std::string::npos;
+  for (auto& x : wrapsOf(k)) if (!d || allowsSendData(k.comm, k.op, x)) w.push_back(x);
+  return w;
+}
+struct EnumItem { int kind; std::string seq; };
+static const std::vector<EnumItem>& futEnum() {
+  static int builtFor = -1;
+  static std::vector<EnumItem> items;
+  if (builtFor != g_seqLen) {
+    items.clear();
+    for (size_t k = 0; k < futKinds().size(); ++k)
+      for (auto& s : seqsOf(futKinds()[k], g_seqLen)) items.push_back({(int)k, s});
+    builtFor = g_seqLen;
+  }
+  return items;
+}
+static long futEnumSize() { return (long)futEnum().size(); }
 // --wrapenum 1 (thorough tier): every wrapper of every operation x every call sequence up to length 3 (otherwise the
 // wrappers rotate over the sequences, shifted by the seed)
 static bool g_wrapEnum = false;
-static const std::vector<std::pair<int, std::string>>& kindWraps() {
-  static const std::vector<std::pair<int, std::string>> kw = [] {
-    std::vector<std::pair<int, std::string>> v;
-    for (size_t k = 0; k < futKinds().size(); ++k) for (auto& w : wrapsOf(futKinds()[k])) v.push_back({(int)k, w});
+struct WrapEnumItem { int kind; std::string wrap, seq; };
+static const std::vector<WrapEnumItem>& wrapEnum() {
+  static const std::vector<WrapEnumItem> items = [] {
+    std::vector<WrapEnumItem> v;
+    for (size_t k = 0; k < futKinds().size(); ++k)
+      for (auto& s : seqsOf(futKinds()[k], 3))
+        for (auto& w : wrapsFor(futKinds()[k], s)) v.push_back({(int)k, w, s});
     return v;
   }();
-  return kw;
+  return items;
 }
-static long wrapEnumSize() { return g_wrapEnum ? (long)kindWraps().size() * (long)allSeqs("vywg", 3).size() : 0; }
+static long wrapEnumSize() { return g_wrapEnum ? (long)wrapEnum().size() : 0; }
 
 static std::string gen(Rng& rng, long i, const Args& a) {
   const int P = g_size;
@@ -1149,26 +1408,23 @@ static std::string gen(Rng& rng, long i, const Args& a) {
   i -= pe;
   // 2. every non-blocking operation x every call sequence over valid/ready/wait/get up to length g_seqLen; the wrappers
   //    of the operation rotate over the sequences
-  static const std::vector<std::string> seqs = allSeqs("vywg", g_seqLen);
   long fe = futEnumSize();
   if (i < fe) {
-    const long ki = i / (long)seqs.size(), si = i % (long)seqs.size();
-    const FutKind& k = futKinds()[ki];
-    const std::string& s = seqs[si];
+    const EnumItem& it = futEnum()[i];
+    const FutKind& k = futKinds()[it.kind];
     std::vector<std::string> steps;
-    for (char ch : s) steps.push_back(std::string(P, ch));
-    const std::vector<std::string> ws = wrapsOf(k);
-    return futLine(rng, k, P, steps, ws[(size_t)(si + ki + (long)(a.seed % 1009)) % ws.size()]);
+    for (char ch : it.seq) steps.push_back(std::string(P, ch));
+    const std::vector<std::string> ws = wrapsFor(k, it.seq);
+    return futLine(rng, k, P, steps, ws[(size_t)(i + (long)(a.seed % 1009)) % ws.size()]);
   }
   i -= fe;
   // 2b. (thorough) every wrapper x every sequence up to length 3
   long we = wrapEnumSize();
   if (i < we) {
-    static const std::vector<std::string> seqs3 = allSeqs("vywg", 3);
-    const auto& kw = kindWraps()[i / (long)seqs3.size()];
+    const WrapEnumItem& it = wrapEnum()[i];
     std::vector<std::string> steps;
-    for (char ch : seqs3[i % (long)seqs3.size()]) steps.push_back(std::string(P, ch));
-    return futLine(rng, futKinds()[kw.first], P, steps, kw.second);
+    for (char ch : it.seq) steps.push_back(std::string(P, ch));
+    return futLine(rng, futKinds()[it.kind], P, steps, it.wrap);
   }
   // 3. random
   if (rng.coin(1, 2)) {
@@ -1184,6 +1440,9 @@ static std::string gen(Rng& rng, long i, const Args& a) {
   int n = (int)rng.range(1, 6);
   static const std::string alpha = "vywgcs-";
   static const std::vector<int> w = {18, 18, 16, 26, 10, 6, 6};
+  const std::string wrap = rng.pick(wrapsOf(k));
+  const bool sendData = allowsSendData(k.comm, k.op, wrap);
+  std::vector<bool> asked(P, false);  // get_send_data() at most once per rank
   std::vector<std::string> steps;
   bool same = rng.coin(1, 4);
   for (int s = 0; s < n; ++s) {
@@ -1193,11 +1452,12 @@ static std::string gen(Rng& rng, long i, const Args& a) {
       int x = (int)rng.below(100), acc = 0;
       char ch = '-';
       for (size_t q = 0; q < w.size(); ++q) { acc += w[q]; if (x < acc) { ch = alpha[q]; break; } }
+      if (sendData && !asked[same ? 0 : r] && rng.coin(1, 6)) { ch = 'd'; asked[same ? 0 : r] = true; }
       st.push_back(ch);
     }
     steps.push_back(st);
   }
-  return futLine(rng, k, P, steps, rng.pick(wrapsOf(k)));
+  return futLine(rng, k, P, steps, wrap);
 }
 
 int main(int argc, char** argv) {
